@@ -188,7 +188,7 @@ func (s *setupWorker) setup(ctx context.Context, m transport.Metadata) error {
 		zap.String("session_username", string(connectPkt.Username)),
 	)
 	L(ctx).Debug("session connected")
-	if metadata, err := s.state.SessionMetadatas().ByClientID(session.ClientID()); err == nil {
+	if metadata, err := s.state.SessionMetadatas().ByClientID(session.MountPoint(), session.ClientID()); err == nil {
 		err := s.state.SessionMetadatas().Delete(metadata.SessionID)
 		if err != nil {
 			return err
@@ -230,7 +230,7 @@ func (s *manager) shutdownSession(ctx context.Context, session *sessions.Session
 	for idx := range topics {
 		s.state.Subscriptions().Delete(session.ID(), topics[idx])
 	}
-	metadata, err := s.state.SessionMetadatas().ByClientID(session.ClientID())
+	metadata, err := s.state.SessionMetadatas().ByClientID(session.MountPoint(), session.ClientID())
 	if err == nil {
 		if metadata.SessionID != session.ID() {
 			// Session has reconnected on another peer.
